@@ -168,13 +168,6 @@ func c07Sessions(e *c07Env) [][]vfPkt {
 	}
 }
 
-func sortStrings(s []string) {
-	for i := 1; i < len(s); i++ {
-		for j := i; j > 0 && s[j] < s[j-1]; j-- {
-			s[j], s[j-1] = s[j-1], s[j]
-		}
-	}
-}
 
 type c07Mut struct {
 	j       int    // index of the mutated request
@@ -447,27 +440,6 @@ func c07Run(u *vfUnit) {
 	}
 }
 
-// vfLineDiff lists the lines that differ between two multi-line strings.
-func vfLineDiff(a, b string) string {
-	am := map[string]int{}
-	for _, l := range strings.Split(a, "\n") {
-		am[l]++
-	}
-	var out []string
-	for _, l := range strings.Split(b, "\n") {
-		if am[l] > 0 {
-			am[l]--
-		} else {
-			out = append(out, "+ "+l)
-		}
-	}
-	for l, n := range am {
-		for ; n > 0; n-- {
-			out = append(out, "- "+l)
-		}
-	}
-	return strings.Join(out, "\n")
-}
 
 // c07SameReply compares two replies of the same server to the same request on
 // identical state. Values that legitimately move between two runs are masked:
